@@ -181,6 +181,14 @@ def spec_sum(xs, n=None):
     return math.fsum(xs if n is None else xs[:n])
 
 
+def sum_field(xs, key):
+    return math.fsum(x[key] for x in xs)
+
+
+def prefix_count(xs, k, field):
+    return sum(len(x[field]) for x in xs[:k])
+
+
 def ints():
     return range(-6, 7)
 
